@@ -6,6 +6,7 @@
 import PM.Step
 import Proofs.StepToks
 import Proofs.Merge
+import Proofs.MarkMerge
 namespace PM.C16
 open PM
 
@@ -139,5 +140,43 @@ theorem merge_shape (s1 s2 m : Step) (hm : s1.merge s2 = some m) :
       simp only [Option.some.injEq] at hm
       exact ⟨f, t, f', t', mk', rfl, rfl, hm.symm, hc2, hc3⟩
     · simp at hm
+
+/-! ## The merged step applies — mark steps (helper lemmas: Proofs/MarkSuccess.lean, Proofs/MarkMerge.lean)
+
+`merge_equiv` assumes that the merged step applies.  For add-mark / remove-mark pairs this follows from
+the pair applying: on a valid, normal-form document a range mark step applies whenever its ends are in
+range and pair-aligned (`addMark_applies`, under `TextLoop`), and the ends of the merged range are ends
+of the two given steps, aligned in the original document (`merged_ends`). -/
+
+/-- **a merged mark step applies whenever the two steps it replaces apply in sequence** to a valid,
+    normal-form document (schemas in which text children may repeat) -/
+theorem merge_succeeds_marks (S : Schema) (hts : TextLoop S) (s1 s2 m : Step) (d d1 d2 : Node)
+    (hmark : (∃ f t mk, s1 = .addMark f t mk) ∨ (∃ f t mk, s1 = .removeMark f t mk))
+    (hv : S.checkNode d = true) (hn : fnorm d.kids = true)
+    (h1 : S.apply s1 d = .ok d1) (h2 : S.apply s2 d1 = .ok d2)
+    (hm : s1.merge s2 = some m) : ∃ d', S.apply m d = .ok d' := by
+  rcases merge_shape s1 s2 m hm with ⟨f, t, sl, f', t', sl', sl'', rfl, _, _⟩ |
+      ⟨f, t, f', t', mk, rfl, rfl, rfl, hc2, hc3⟩ | ⟨f, t, f', t', mk, rfl, rfl, rfl, hc2, hc3⟩
+  · rcases hmark with ⟨_, _, _, h⟩ | ⟨_, _, _, h⟩ <;> cases h
+  · exact merge_succeeds_addMark S hts d d1 d2 f t f' t' mk hv hn h1 h2 hc2 hc3
+  · exact merge_succeeds_removeMark S hts d d1 d2 f t f' t' mk hv hn h1 h2 hc2 hc3
+
+/-- **unconditional equivalence for mark steps**: the merged step applies to the original document and
+    yields exactly the document the two steps yield -/
+theorem merge_equiv_marks (S : Schema) (hts : TextLoop S) (s1 s2 m : Step) (d d1 d2 : Node)
+    (hmark : (∃ f t mk, s1 = .addMark f t mk) ∨ (∃ f t mk, s1 = .removeMark f t mk))
+    (hv : S.checkNode d = true) (hn : fnorm d.kids = true)
+    (h1 : S.apply s1 d = .ok d1) (h2 : S.apply s2 d1 = .ok d2)
+    (hm : s1.merge s2 = some m) : S.apply m d = .ok d2 := by
+  obtain ⟨d', h'⟩ := merge_succeeds_marks S hts s1 s2 m d d1 d2 hmark hv hn h1 h2 hm
+  have norms : fnorm d'.kids = true ∧ fnorm d2.kids = true := by
+    rcases merge_shape s1 s2 m hm with ⟨f, t, sl, f', t', sl', sl'', rfl, _, _⟩ |
+        ⟨f, t, f', t', mk, rfl, rfl, rfl, _, _⟩ | ⟨f, t, f', t', mk, rfl, rfl, rfl, _, _⟩
+    · rcases hmark with ⟨_, _, _, h⟩ | ⟨_, _, _, h⟩ <;> cases h
+    · exact ⟨(addMark_facts S d d' _ _ mk h').norm hn,
+        (addMark_facts S d1 d2 _ _ mk h2).norm ((addMark_facts S d d1 _ _ mk h1).norm hn)⟩
+    · exact ⟨(removeMark_facts S d d' _ _ mk h').norm hn,
+        (removeMark_facts S d1 d2 _ _ mk h2).norm ((removeMark_facts S d d1 _ _ mk h1).norm hn)⟩
+  rw [h', merge_equiv S s1 s2 m d d1 d2 d' h1 h2 hm h' norms.1 norms.2]
 
 end PM.C16
